@@ -5,7 +5,7 @@ set -e
 cd "$(dirname "$0")/harness"
 export GOFLAGS=-mod=mod GOPROXY=off GOTOOLCHAIN=local
 unset GOSUMDB
-go1.26.8 build ./... 
+go1.26.8 build -tags verif ./...
 go1.26.8 test -tags verif -count=1 -run '^$' ./... >/dev/null
 if [ -f ../tools/race_pkgs.txt ]; then
   go1.26.8 test -tags verif -race -count=1 -run '^$' $(cat ../tools/race_pkgs.txt) >/dev/null
